@@ -50,6 +50,8 @@ ListProgs ==
     \cup {<<Tk("print")>> \o Ix("Q", <<a>>) \o <<sep>> \o Ix("Q", as) : a \in T4, sep \in {Tk("comma"), Tk("semicolon")}, as \in Args(1) \cup Args(2)}
     \cup {DataHead \o <<Tk("read")>> \o Commas(as) : as \in [1..2 -> {Sym("X"), Sym("S$"), TkN(NInt(0)), TkS("stringliteral", B("A"))}]}
     \cup {DataHead \o <<Tk("read"), Sym("X"), Tk("comma")>> \o Ix("Q", as) : as \in Args(1) \cup Args(2)}
+    \cup {<<Tk("input")>> \o Commas(as) : as \in [1..1 -> {Sym("X"), Sym("S$"), TkN(NInt(0))}] \cup [1..2 -> {Sym("X"), Sym("S$"), TkN(NInt(0))}]}
+    \cup {<<Tk("input")>> \o Ix("Q", as) \o <<Tk("colon"), Tk("print")>> \o Ix("Q", as) : as \in Args(1) \cup Args(2)}
     \cup {<<Tk("for"), Sym("I"), Tk("equals"), a, Tk("to"), b, Tk("step"), c, Tk("colon"), Tk("next"), Sym("I")>> : a \in T4, b \in T4, c \in T4}
     \cup {<<Tk("if"), a, Tk("then"), Tk("print"), b, Tk("else"), Tk("print")>> \o Ix("Q", as) : a \in T4, b \in T4, as \in Args(2)}
 
@@ -75,6 +77,7 @@ RunFrom(r, fuel, outs) ==
     IN  IF Unknown(r) THEN [ok |-> FALSE, kind |-> "unknown", out |-> o, line |-> <<>>]
         ELSE IF ~r.res.ok THEN [ok |-> FALSE, kind |-> r.res.kind, out |-> o, line |-> IF r.res.hl THEN r.res.line ELSE <<>>]
         ELSE IF r.I.mode = "running" /\ fuel > 0 THEN RunFrom(Step(r.I, CContinue), fuel - 1, o)
+        ELSE IF r.I.mode = "awaiting" /\ fuel > 0 THEN RunFrom(Step(r.I, CProvide(B("1"))), fuel - 1, o)       \* every INPUT is answered 1
         ELSE [ok |-> r.I.mode = "idle", kind |-> IF r.I.mode = "idle" THEN "" ELSE "unknown", out |-> o, line |-> <<>>]
 RunOn(r, fuel) == RunFrom(r, fuel, <<>>)
 RunResult == RunOn(Step(Prog, CSubmit(B("RUN"))), 50)
